@@ -10,6 +10,8 @@ package main
 //   - x.Name for any other x refers to every declaration called Name in the same package and to every method
 //     called Name anywhere in the module (this is how calls through interfaces are followed, also to
 //     implementations in packages that import this one, e.g. the report codecs).
+//   - a reached package-level VARIABLE pulls in every declaration of its package that mentions it (writers of
+//     shared state: a regular expression replaced, a cache filled, a buffer reused).
 // Over-approximation only adds fingerprints.  Generated protobuf files and tests are left out.
 
 import (
@@ -181,6 +183,26 @@ func reachableOutside(files []string) map[string]bool {
 			if !seen[r] {
 				seen[r] = true
 				work = append(work, r)
+			}
+		}
+		if strings.HasPrefix(d.name, "VAR ") {
+			// package-level state that the reached code reads: everything in the package that mentions the
+			// variable may write it (a regular expression replaced, a cache filled, a buffer reused)
+			for _, o := range reachIdx.decls {
+				if o.dir != d.dir || seen[o] {
+					continue
+				}
+				uses := false
+				ast.Inspect(o.node, func(n ast.Node) bool {
+					if id, ok := n.(*ast.Ident); ok && id.Name == d.bare {
+						uses = true
+					}
+					return !uses
+				})
+				if uses {
+					seen[o] = true
+					work = append(work, o)
+				}
 			}
 		}
 	}
